@@ -219,8 +219,13 @@ def stage_apply_text(expr, sg, pr, alias=0):
         return m("replaceMany", str(sg[1]), vtext(sg[2])) if sg[3] is None else m("replaceMany", str(sg[1]), vtext(sg[2]), str(sg[3]))
     if k == "slice":
         return m("slice", str(sg[1]))
+    if k in ("min", "max") and len(sg) > 1 and sg[1] is not NOSEED:
+        return m(k, vtext(sg[1]))
     if k in ("memorize", "reverse", "toList", "toSet", "cycle", "single", "len", "count", "min", "max"):
         return m(k)
+    if k == "groupByLegacy":       # the pre-1.1.1 aggregator: a function of [key, values] returning [key, aggregate]
+        agg = pr.wrap(["[$[0], $[1].len()]", "[$[0], $[1].sum()]", "[$[0], $[1].first()]"][sg[3]])
+        return m("groupBy", lt(sg[1], pr), lt(sg[2] if sg[2] is not None else ("id",), pr), agg)
     if k == "orderBy":
         return m("orderBy" if sg[2] else "orderByDescending", lt(sg[1], pr))
     if k == "thenBy":
@@ -365,9 +370,13 @@ def stage_gal(sg):
         return A("SReplace", gal.z(sg[1]), gval(sg[2]), oz(sg[3]))
     if k == "replaceMany":
         return A("SReplaceMany", gal.z(sg[1]), gvals(sg[2]), oz(sg[3]))
+    if k in ("min", "max") and len(sg) > 1 and sg[1] is not NOSEED:
+        return A("SAggregate", "L2Min" if k == "min" else "L2Max", ov(sg[1]))
     if k in ("memorize", "reverse", "toList", "toSet", "cycle", "single", "len", "count", "min", "max",
              "dictFromItems", "keysList", "valuesList", "itemsList"):
         return "S" + k[0].upper() + k[1:]
+    if k == "groupByLegacy":
+        return A("SGroupByAgg", lam_gal(sg[1]), ol(sg[2] if sg[2] is not None else ("id",)), gal.nat(sg[3]))
     if k == "orderBy":
         return A("SOrderBy", lam_gal(sg[1]), gal.boolean(sg[2]))
     if k == "thenBy":
@@ -476,7 +485,7 @@ STAGE_NAMES = {
     "dictGet": ["get"], "containsKey": ["containsKey"], "containsValue": ["containsValue"],
     "union": ["union"], "intersect": ["intersect"], "difference": ["difference", "#operator_-"],
     "symmetricDifference": ["symmetricDifference"], "setAdd": ["add"], "setRemove": ["remove"],
-    "groupByAgg": ["groupBy"], "attr": ["#operator_."], "unpackNamed": [], "unpackIdx": [], "with": [],
+    "groupByAgg": ["groupBy"], "groupByLegacy": ["groupBy"], "attr": ["#operator_."], "unpackNamed": [], "unpackIdx": [], "with": [],
     "zipLongest": ["zipLongest"], "listOf": ["list"], "mergeWithX": ["mergeWith"], "dictSetMany": ["set"], "dictSetInline": ["set"],
     "flatten": ["flatten"], "defaultIfEmpty": ["defaultIfEmpty"], "times": ["#operator_*"], "isList": ["isList"],
     "isDict": ["isDict"], "isSet": ["isSet"], "isIterable": ["isIterable"], "in": ["#operator_in"],
@@ -541,7 +550,13 @@ def source_setup(src, literal):
     if k == "dict":
         return (dict_text(src[1]), None) if literal or not _plain_hashable([a for a, _ in src[1]]) else ("$", _mkdict(src[1]))
     if k == "range":
+        if src[3] == 1 and src[1] == 0 and not literal:
+            return "range(%d)" % src[2], None
+        if src[3] == 1 and literal:
+            return "range(%d, %d)" % (src[1], src[2]), None
         return "range(%d, %d, %d)" % (src[1], src[2], src[3]), None
+    if k == "sequence":
+        return ("sequence(%d)" % src[1] if src[1] != 0 or literal else "sequence()"), None
     if k == "recs":
         recs = [{"a": x, "b": 0} for x in src[2]]
         return "$", (recs if src[1] == "tuple" else iter(recs))
@@ -562,7 +577,8 @@ def source_setup(src, literal):
             args.append("depthFirst => true")
         return "generateMany(%s)" % ", ".join(args), None
     if k == "repeat":
-        return "%s.repeat(%d)" % ("(%s)" % vtext(src[1]) if isinstance(src[1], int) and src[1] < 0 else vtext(src[1]), src[2]), None
+        recv = "(%s)" % vtext(src[1]) if isinstance(src[1], int) and not isinstance(src[1], bool) and src[1] < 0 else vtext(src[1])
+        return ("%s.repeat(%d)" % (recv, src[2]) if src[2] != -1 else "%s.repeat()" % recv), None
     raise ValueError(src)
 
 
@@ -597,6 +613,8 @@ def source_gal(src):
         return gal.app("SrcDictOf", gkvs(src[1]))
     if k == "range":
         return gal.app("SrcRange", gal.z(src[1]), gal.z(src[2]), gal.z(src[3]))
+    if k == "sequence":
+        return gal.app("SrcSequence", gal.z(src[1]))
     if k == "recs":
         return gal.app("SrcTuple" if src[1] == "tuple" else "SrcIter", gvals(src[2]))
     if k == "generateMany":
@@ -683,11 +701,19 @@ def _alarm(signum, frame):
     raise Watchdog()
 
 
+WATCHDOG_HITS = [0]
+
+
 def evaluate_fresh(text, mkdata, timeout=20):
-    """evaluate with freshly built data; a watchdog hit is only believed when it repeats (machine load)"""
+    """evaluate with freshly built data; a watchdog hit is only believed when it repeats (machine load).
+    After a few confirmed hits (a tree on which evaluations hang) the patience is reduced so that the run ends."""
+    if WATCHDOG_HITS[0] >= 3:
+        return evaluate(text, mkdata(), 4)
     o = evaluate(text, mkdata(), timeout)
     if o[0] == "err" and o[1] == "EOther" and o[2].startswith("watchdog"):
-        o = evaluate(text, mkdata(), 3 * timeout)
+        o = evaluate(text, mkdata(), 2 * timeout)
+        if o[0] == "err" and o[1] == "EOther" and o[2].startswith("watchdog"):
+            WATCHDOG_HITS[0] += 1
     return o
 
 
@@ -906,6 +932,8 @@ def gen_stage(rng, kind, shape, n, allow_terminal=True, streaming_only=False, ce
         return ("splitAt", gen_pos(rng, n)), "seq", "other", 2
     if k in ("splitWhere", "sliceWhere"):
         return (k, gen_lam(rng, shape, "pred")), it, "other", n
+    if k == "groupByAgg" and shape == "int" and rng.random() < 0.4:
+        return ("groupByLegacy", gen_lam(rng, shape, "key"), rng.choice([None, ("add", 1)]), rng.choice([0, 1, 2])), it, "other", n
     if k == "groupByAgg":
         agg = rng.choice([0, 0, 1, 2]) if shape == "int" else 0
         vl = rng.choice([None, ("id",), ("add", 1)]) if shape == "int" else None
@@ -958,7 +986,7 @@ def gen_stage(rng, kind, shape, n, allow_terminal=True, streaming_only=False, ce
     if k in ("min", "max"):
         if shape != "int":
             return ("len",), "scalar", "other", 0
-        return (k,), "scalar", "other", 0
+        return (k, rng.choice([NOSEED, NOSEED, 0, 4])), "scalar", "other", 0
     if k in ("first", "last"):
         return (k, rng.choice([NOSEED, NOSEED, None, 7])), "scalar", "other", 0
     if k in ("single", "len", "count"):
@@ -1020,7 +1048,7 @@ def gen_pipeline(rng, maxlen=4):
         src, kind, shape, n = ("repeat", rng.choice([None, 1, -2, (1, 2)]), rng.randrange(0, 5)), "iter", "other", 4
     elif r < 0.722:
         sel = rng.choice([None, None, ("add", 10), ("pair",)])
-        src = ("generateMany", rng.choice([1, 1, 2, 3, 0, -1]), rng.randrange(0, 14), sel, rng.random() < 0.4, rng.random() < 0.5)
+        src = ("generateMany", rng.choice([1, 1, 2, 3, 0]), rng.randrange(0, 14), sel, rng.random() < 0.4, rng.random() < 0.5)
         if src[1] <= 0 and not src[4]:
             src = src[:4] + (True,) + src[5:]        # 0 -> [0, 1]: only terminates with decycle
         kind, shape, n = "iter", ("int" if sel != ("pair",) else "pairint"), 6
